@@ -141,6 +141,13 @@ class ServerBase(object):
         else:
             raise ctx.in_error
 
+        self.drop_ignored(ctx)
+
+    @staticmethod
+    def drop_ignored(ctx):
+        """An ``Ignored`` return value is for direct callers only: what gets
+        serialized in its place is ``None``."""
+
         if isinstance(ctx.out_object, (list, tuple)) \
                     and len(ctx.out_object) > 0 \
                     and isinstance(ctx.out_object[0], Ignored):
